@@ -498,27 +498,50 @@ func (bc *BlockChain) ExportN(w io.Writer, first uint64, last uint64) error {
 //
 // Note, this function assumes that the `mu` mutex is held!
 func (bc *BlockChain) insert(block *types.Block) {
-	// If the block is on a side chain or an unknown one, force other heads onto it too
-	updateHeads := GetCanonicalHash(bc.db, block.NumberU64()) != block.Hash()
-
 	// Add the block to the canonical chain number scheme and mark as the head
 	// (atomically: a crash must not leave the index and the head pointer disagreeing)
 	batch := bc.db.NewBatch()
-	if err := bc.writeHead(batch, block); err != nil {
+	displaced, updateHeads, err := bc.writeHead(batch, block)
+	if err != nil {
 		log.Crit("Failed to insert head block", "err", err)
 	}
 	if err := batch.Write(); err != nil {
 		log.Crit("Failed to insert head block", "err", err)
 	}
+	// If the block is on a side chain or an unknown one, force other heads onto it too
 	bc.insertHeads(block, updateHeads)
+	for _, d := range displaced {
+		bc.dropTxLookups(d.hash, d.number)
+	}
 }
 
-// writeHead adds the canonical number assignment and the head block pointer to a batch.
-func (bc *BlockChain) writeHead(batch aquadb.Batch, block *types.Block) error {
-	if err := WriteCanonicalHash(batch, block.Hash(), block.NumberU64()); err != nil {
-		return err
+// writeHead adds the canonical number assignment and the head block pointer to a batch. If the
+// block is not yet the canonical one at its number (updateHeads), the canonical entries at and
+// above its number that name other blocks stop being canonical: the entries above are removed in
+// the same batch and the blocks are returned so that the caller drops their transaction lookups
+// once the batch is written. After a reorganisation these are blocks of the old chain; after a
+// rewind to a block whose state was pruned they can also sit above the block head. If the block
+// already is canonical (it is executed again after a rewind below it) the entries above it
+// belong to its own descendants and stay.
+func (bc *BlockChain) writeHead(batch aquadb.Batch, block *types.Block) (displaced []displacedBlock, updateHeads bool, err error) {
+	number := block.NumberU64()
+	updateHeads = GetCanonicalHash(bc.db, number) != block.Hash()
+	if updateHeads {
+		for i := number; ; i++ {
+			hash := GetCanonicalHash(bc.db, i)
+			if hash == (common.Hash{}) {
+				break
+			}
+			displaced = append(displaced, displacedBlock{hash, i})
+			if i > number {
+				DeleteCanonicalHash(batch, i)
+			}
+		}
 	}
-	return WriteHeadBlockHash(batch, block.Hash())
+	if err := WriteCanonicalHash(batch, block.Hash(), number); err != nil {
+		return nil, false, err
+	}
+	return displaced, updateHeads, WriteHeadBlockHash(batch, block.Hash())
 }
 
 // displacedBlock names a block whose canonical number entry is being taken over or removed.
@@ -1065,28 +1088,15 @@ func (bc *BlockChain) WriteBlockWithState(block *types.Block, receipts []*types.
 	// Set new head. The number assignment and the head pointer travel in the same batch as the
 	// block data: a crash never leaves a head pointer without its block, nor a stored block
 	// that is heavier than the head it did not become.
-	updateHeads := GetCanonicalHash(bc.db, block.NumberU64()) != block.Hash()
-	var displaced []displacedBlock
+	var (
+		displaced   []displacedBlock
+		updateHeads bool
+	)
 	if status == CanonStatTy {
-		// Canonical entries at and above the new head that name other blocks stop being canonical. After a
-		// reorganisation they are blocks of the old chain; after a rewind to a block whose state was pruned
-		// (or header-first imports) they can also sit above the block head. Their lookups go after the flush.
-		for i := block.NumberU64(); ; i++ {
-			hash := GetCanonicalHash(bc.db, i)
-			if hash == (common.Hash{}) {
-				break
-			}
-			if hash != block.Hash() {
-				displaced = append(displaced, displacedBlock{hash, i})
-			}
-		}
-		if err := bc.writeHead(batch, block); err != nil {
+		// Canonical number assignments above the new head (a reorganisation may have come from a
+		// longer chain) are deleted in the same batch that moves the head
+		if displaced, updateHeads, err = bc.writeHead(batch, block); err != nil {
 			return NonStatTy, err
-		}
-		// Delete any canonical number assignments above the new head (a reorganisation may have
-		// come from a longer chain), in the same batch that moves the head
-		for i := block.NumberU64() + 1; GetCanonicalHash(bc.db, i) != (common.Hash{}); i++ {
-			DeleteCanonicalHash(batch, i)
 		}
 	}
 	if err := batch.Write(); err != nil {
@@ -1469,19 +1479,6 @@ func (bc *BlockChain) reorg(oldBlock, newBlock *types.Block) error {
 			"drop", len(oldChain), "dropfrom", oldChain[0].Hash(), "add", len(newChain), "addfrom", newChain[0].Hash())
 	} else {
 		log.Error("Impossible reorg, please file an issue", "oldnum", oldBlock.Number(), "oldhash", oldBlock.Hash(), "newnum", newBlock.Number(), "newhash", newBlock.Hash())
-	}
-	// Canonical entries that the new chain overwrites without their block being part of the old chain
-	// (entries above the old block head) lose their transactions' lookups like old chain blocks do
-	inOld := make(map[common.Hash]bool, len(oldChain))
-	for _, b := range oldChain {
-		inOld[b.Hash()] = true
-	}
-	for _, b := range newChain {
-		if hash := GetCanonicalHash(bc.db, b.NumberU64()); hash != (common.Hash{}) && hash != b.Hash() && !inOld[hash] {
-			if body := GetBodyNoVersion(bc.db, hash, b.NumberU64()); body != nil {
-				deletedTxs = append(deletedTxs, body.Transactions...)
-			}
-		}
 	}
 	// Insert the new chain, taking care of the proper incremental order
 	var addedTxs types.Transactions
